@@ -291,7 +291,9 @@ CHECKS.update({
         technique='TLA+ TxPool.tla (ethTxPool + txSortedMap + app nonce; commit path split into Update / SwapState / UpdateToState, evictor, '
                   'flush) and Mempool.tla exhaustively model-checked by TLC; edge cover of both state graphs plus simulation replayed on the real '
                   'ethTxPool with a real EVMApp behind it (interleavings forced through the OnCommit Gate) and on the real Mempool; properties '
-                  're-evaluated on the real pool independently of the model',
+                  're-evaluated on the real pool independently of the model; TLA+ spec CList.tla (the concurrent list under both pools: '
+                  'removed elements keep their pointers, a reader moves by Next()) model-checked, every edge of its three state graphs '
+                  'replayed on the real go-clist',
         level=('model_checking',
                'Bounded-exhaustive on the spec (1 account P=3; 2 accounts 1.47M states in thorough); the implementation is bound by replay of '
                'every edge of the smallest graph plus sampled behaviours; Reap order, duplicates, re-offers, loss below capacity and bounds '
